@@ -1,7 +1,7 @@
 """pytest plugin: run the repository's own test-suite as a workload under the monitors.
 
 Enabled with  GRAPHSLAM_VERIF=1  and  -p vf.pytest_plugin  (PYTHONPATH must contain /verif and the repository).
-VF_PLUGIN_PROP selects the property whose monitors are attached (C01, C02, C09, C10, C11); VF_PLUGIN_OUT is the JSON file
+VF_PLUGIN_PROP selects the property whose monitors are attached (C01, C02, C06, C09, C10, C11, C12, C14, C15); VF_PLUGIN_OUT is the JSON file
 that receives what the monitors observed.  A monitor that fires here is a witness to be read, never silenced.
 """
 import json
@@ -126,6 +126,84 @@ def pytest_sessionstart(session):
         for cls, k in ((M.PoseSE2, "se2"), (M.PoseSE3, "se3"), (M.PoseR2, "r2"), (M.PoseR3, "r3")):
             for name in c10.METHODS:
                 mon.attach(cls, name, after=mk(name, cls, k), sample=samp)
+    elif prop in ("C06", "C12", "C14", "C15"):
+        _attach_graph_level(prop, ctx, mon, M, R)
+
+
+def _attach_graph_level(prop, ctx, mon, M, R):
+    """C06 / C12 / C15: every Graph.optimize call of the test-suite; C14: every Graph.from_g2o call (a classmethod, wrapped by hand)."""
+    from .props import c12, c15
+
+    if prop in ("C06", "C12", "C15"):
+        def before(args, kwargs):
+            g = args[0]
+            ffp = kwargs.get("fix_first_pose", args[3] if len(args) > 3 else True)
+            try:
+                with np.errstate(all="ignore"):
+                    c0 = float(g.calc_chi2())
+            except Exception:  # noqa: BLE001
+                c0 = None
+            return (c15.snap(g), bool(ffp), c0)
+
+        def after(args, kwargs, result, exc, token):
+            if exc is not None or token is None:
+                return
+            g = args[0]
+            snap0, ffp, c0 = token
+            snap1 = c15.snap(g)
+            if prop == "C15":
+                d = c15.diff_snap(snap0, snap1, ignore_poses=True, allow_first_fixed=ffp)
+                ctx.check("optimize-changes-only-poses", not d, {"where": "repository-test-suite", "fix_first_pose": ffp}, {"differences": d[:5]})
+            elif prop == "C06":
+                for j, (x, y) in enumerate(zip(snap0["v"], snap1["v"])):
+                    if x[1] or (ffp and j == 0):
+                        ctx.check("fixed-pose-unchanged", c15.nums_equal(x[3], y[3]) and bool(y[1]), {"where": "repository-test-suite", "first_listed": j == 0},
+                                  {"vertex": j, "before": x[3], "after": y[3]})
+            else:
+                with np.errstate(all="ignore"):
+                    try:
+                        c1 = float(g.calc_chi2())
+                    except Exception:  # noqa: BLE001
+                        c1 = None
+                if c1 is not None and result is not None:
+                    ctx.check("final-chi2-is-calc_chi2", c12.same_float(result.final_chi2, c1), {"where": "repository-test-suite"}, {"final_chi2": result.final_chi2, "calc_chi2": c1})
+                if c0 is not None and result is not None:
+                    ctx.check("report-chi2-sequence", c12.same_float(result.initial_chi2, c0), {"where": "repository-test-suite", "what": "initial chi2"},
+                              {"initial_chi2": result.initial_chi2, "calc_chi2_before": c0})
+        mon.attach(M.Graph, "optimize", after=after, before=before)
+    elif prop == "C14":
+        from .props import c14
+
+        orig = M.Graph.__dict__["from_g2o"]
+        func = orig.__func__
+
+        def from_g2o(cls, infile, custom_edge_types=None):
+            g = func(cls, infile, custom_edge_types)
+            mon.calls["Graph.from_g2o"] = mon.calls.get("Graph.from_g2o", 0) + 1
+            if not custom_edge_types and not mon.busy:
+                mon.busy = True
+                try:
+                    # the tests sometimes replace graphslam.graph.open by an in-memory file: read through whatever the loader itself used
+                    import graphslam.graph as gg
+
+                    opener = getattr(gg, "open", open)
+                    try:
+                        with opener(infile) as f:
+                            text = f.read()
+                    except Exception:  # noqa: BLE001 - an observer never disturbs the observed call
+                        text = None
+                        ctx.count("suite:file_not_readable_by_the_observer")
+                    if isinstance(text, str):
+                        try:
+                            verts, edges, params, junk = c14.expected_from_text([(text, None)], set())
+                            c14.compare_loaded(ctx, g, verts, edges, params, {"where": "repository-test-suite"}, {"file": os.path.basename(str(infile))})
+                        except Exception as ex:  # noqa: BLE001
+                            ctx.count("suite:observer_error:" + type(ex).__name__)
+                finally:
+                    mon.busy = False
+            return g
+        M.Graph.from_g2o = classmethod(from_g2o)
+        mon._undo.append((M.Graph, "from_g2o", orig))
 
 
 def pytest_sessionfinish(session, exitstatus):
